@@ -29,5 +29,6 @@ ASSUME \A a \in {1,2,3,4,8,9,15,16,17,26,27,28,99,100,1000} : \A b \in 2..4 :
           LET e == BN!ToNat(BN!FloorLog(S(a), S(b))) IN b^e <= a /\ b^(e+1) > a
 ASSUME H!Zeros(3) = "000000" /\ H!Slice("00112233", 1, 2) = "1122" /\ H!IsZero("0000") /\ ~H!IsZero("0100")
 ASSUME H!Splice("00112233", 1, "aabb") = "00aabb33" /\ H!Pad8("aa") = "aa00000000000000" /\ H!Pad8("") = ""
+ASSUME H!BitAt("80", 0) = 1 /\ H!BitAt("80", 1) = 0 /\ H!BitAt("0001", 15) = 1 /\ H!BitAt("a5", 2) = 1 /\ H!BitAt("a5", 3) = 0
 ASSUME H!Cat(<<"aa", "", "bb">>) = "aabb"
 =============================================================================
